@@ -1,17 +1,32 @@
 #!/bin/bash
-# Re-apply every saved seeded change to /repo, run the quick check of its property, restore /repo.
+# Re-apply every saved seeded change, run the quick check of its property against the changed tree, restore.
 # Expected: every line says CAUGHT.  Never commits anything in /repo.
+#   tools/seed_regress.sh [prefix]            changed tree = scratch worktree of /repo (checks run with VERIF_REPO=<worktree>)
+#   INPLACE=1 tools/seed_regress.sh [prefix]  changed tree = /repo itself (git apply ... ; check ; git checkout -- .)
 cd /verif || exit 2
 out=seeded/REGRESSION.txt
 : > $out.tmp
-if [ -n "$(git -C /repo status --porcelain -- cds src)" ]; then echo "refusing: /repo has local changes"; exit 2; fi
+if [ -n "$INPLACE" ]; then
+  W=/repo
+  if [ -n "$(git -C /repo status --porcelain -- cds src)" ]; then echo "refusing: /repo has local changes"; exit 2; fi
+else
+  W=/tmp/seedreg.$$
+  git -C /repo worktree add --detach $W HEAD >/dev/null 2>&1 || exit 2
+  export VERIF_REPO=$W
+fi
 for d in seeded/*/; do
   name=$(basename $d)
   [ -n "$1" ] && [[ "$name" != $1* ]] && continue
   prop=$(python3 -c "import json;print(json.load(open('$d/meta.json'))['property'])")
-  if ! git -C /repo apply $d/patch.diff 2>/dev/null; then echo "$name $prop PATCH-DOES-NOT-APPLY" | tee -a $out.tmp; continue; fi
+  if ! git -C $W apply $d/patch.diff 2>/dev/null; then echo "$name $prop PATCH-DOES-NOT-APPLY" | tee -a $out.tmp; continue; fi
   res=$(./check $prop --tier quick 2>&1 | tail -1)
-  git -C /repo checkout -- .
+  git -C $W checkout -- .
   case "$res" in FAIL*) echo "$name $prop CAUGHT :: $res" | tee -a $out.tmp;; *) echo "$name $prop MISSED :: $res" | tee -a $out.tmp;; esac
 done
+if [ -z "$INPLACE" ]; then
+  # leave the generated Lean modules in the state of the unchanged tree
+  unset VERIF_REPO
+  python3 -c "import sys; sys.path.insert(0,'tools'); import vlib, cxx2lean; cxx2lean.generate(vlib.REPO, vlib.LEAN)" >/dev/null 2>&1
+  git -C /repo worktree remove --force $W
+fi
 [ -z "$1" ] && mv $out.tmp $out || cat $out.tmp
